@@ -47,6 +47,51 @@ CLAIMED = {
              note="Trusted: as C01; Scapy is not modelled (the model answers only for well-framed IPv4/IPv6+TCP datagrams, which the harness builds); IPv6 "
                   "extension headers and link-layer trailers are outside the demand. No axioms.",
              tech="Coq proof (codec inversion, TLV walker soundness+completeness) + extracted-model differential correspondence on raw bytes", ref="DESIGN.md section 4 C03"),
+ "C04": dict(text="Coq theorems: the option walker terminates within one iteration per byte for EVERY byte string and its layout never exceeds the number "
+                  "of option bytes; the dissector model yields a packet or PacketError; the tcp/mtu/uptime fingerprint models yield a result, PacketError or "
+                  "DatabaseError only; the HTTP reader returns a result or PacketError for EVERY byte string (no Crash constructor reachable). " + TIE +
+                  " The implementation is run under a per-call alarm and address-space limit on mutated packets/payloads (hostile options, inconsistent "
+                  "lengths, truncations, leading CR/LF, non-ASCII) and must answer ok or PacketError.",
+             note="Trusted: as C01; byte strings Scapy itself refuses to dissect are outside the quantifier (counted as dissect-failed); work/memory "
+                  "proportionality is proved on the model only (fuel / length bounds), on the implementation only hangs are detectable. No axioms.",
+             tech="Coq proof (termination by fuel, totality) + mutation-based differential/robustness run with hang detection", ref="DESIGN.md section 4 C04"),
+ "C06": dict(text="Coq theorems: headers_match's index loop <-> the inductive ordered Walk of the statement (first occurrence at/after the cursor, substring "
+                  "inside that occurrence, optional header only if it occurs nowhere); http_signatures_match <-> version/required/absent/walk; selection = "
+                  "earliest non-generic else earliest generic; software = first non-empty User-Agent else Server; dishonest iff; section by first line. " + TIE,
+             note="Trusted: as C01; the database text is parsed by the model's parser (tied to the implementation's by C09/C10). No axioms.",
+             tech="Coq proof (loop = inductive walk, selection) + extracted-model differential correspondence through fingerprint_http", ref="DESIGN.md section 4 C06"),
+ "C07": dict(text="Coq theorems: for every head written as lines with CRLF or bare LF per line followed by a blank line and arbitrary body bytes the lines are "
+                  "recovered; request/status line -> direction and minor digit; header fields (names as sent, values stripped, any number of folded "
+                  "continuation lines appended) are recovered in order; whole-message round trip; rejections: unterminated head, other method, other "
+                  "version (exact characterisation of accepted version tokens), no colon, empty name. " + TIE,
+             note="Trusted: as C01; h11's maybe_extract_lines is modelled (not verified) as 'lines before the first LF-terminated blank piece', exercised "
+                  "by the correspondence on every run. No axioms.",
+             tech="Coq proof (render/read round trip, rejection lemmas) + extracted-model differential correspondence incl. single-defect corruptions", ref="DESIGN.md section 4 C07"),
+ "C09": dict(text="Coq theorems: after a successful load each section holds, in file order, exactly the sig lines a state-free scanner attributes to it "
+                  "(line number, most recent label with sys, raw text, parsed signature), len(db) = number of sig lines, also with repeated section headers "
+                  "(induction over lines); accepted TCP signatures lie in the documented ranges; layout / quirk / label texts denote what they say "
+                  "(printer-parser round trips). " + TIE + " The shipped p0f.fp is one of the cases.",
+             note="Trusted: as C01; Python string primitives (split/partition/strip/int) are modelled for ASCII text and exercised by the correspondence; a full "
+                  "print/parse round trip of whole TCP/HTTP signature texts is not proved (layout, quirks, labels, numbers are). No axioms.",
+             tech="Coq proof (parser = scanner refinement by induction) + extracted-model differential correspondence on generated files", ref="DESIGN.md section 4 C09"),
+ "C10": dict(text="Coq theorems: parse_file ends in a database or ParsingError(n) for EVERY line list (no other outcome constructor reachable: the partial "
+                  "operations of the code are modelled as partial and proved safe); n is the 1-based number of the first offending line (the prefix parses, "
+                  "that line fails); accepted tcp/mtu/http signatures are within the documented ranges, quirks legal for the version; skipped lines leave the "
+                  "state unchanged. " + TIE + " Single-fault corruptions, a per-field boundary catalogue and all short line-kind sequences are run.",
+             note="Trusted: as C09; an unreadable path is checked on the implementation only (open() is not modelled). No axioms.",
+             tech="Coq proof (outcome classes, first-error line, range lemmas) + extracted-model differential correspondence on corrupted files", ref="DESIGN.md section 4 C10"),
+ "C15": dict(text="Coq theorems: type:class:name:flavour with colon-free parts parses to its components and dumps back to the same text; sys does not "
+                  "affect the text; lookup returns only records of the requested list whose dumped label equals the text exactly, can return every such "
+                  "record, DatabaseError when none / unloaded. " + TIE + " random.choice is driven over every candidate index; label-based impersonation "
+                  "is checked to draw from that label's records of the packet's direction.",
+             note="Trusted: as C09; random.choice replaced by an indexable stub. No axioms.",
+             tech="Coq proof (label round trip, lookup soundness/completeness) + extracted-model differential correspondence", ref="DESIGN.md section 4 C15"),
+ "C18": dict(text="Coq theorems: parse_layout (dump_layout l pad) = (l, pad if EOL present) for every layout over kinds 0..255 and padding 0..255; "
+                  "parse_quirks (dump_quirks q) = q for all 2^17 quirk sets legal for the version; int(str(n)) = n. " + TIE + " Real packets are dumped, "
+                  "parsed back and matched against themselves by the real code.",
+             note="Trusted: as C09. 'A signature written from a packet matches it exactly' is checked on the implementation (and its ingredients are the C01/C03 "
+                  "theorems) but not proved as one composed theorem. No axioms.",
+             tech="Coq proof (printer/parser round trips) + differential correspondence, quirk sweep (thorough: all 2^17)", ref="DESIGN.md section 4 C18"),
 }
 def main():
     checks = []
